@@ -238,6 +238,10 @@ def iterative(name):
 def flag_kwargs(flags, cls):
     if flags == 'given':
         return {'hermitian': cls['hermitian'], 'symmetric': cls['symmetric']}
+    if flags == 'sym_only':       # one (truthful) flag alone; the other one is left to be detected
+        return {'symmetric': cls['symmetric']}
+    if flags == 'herm_only':
+        return {'hermitian': cls['hermitian']}
     return {}
 
 
@@ -828,8 +832,9 @@ QUICK_PART_FAMILIES = ['gen', 'symind', 'spd', 'cgen', 'hpd', 'hind', 'csym', 'l
 QUICK_N5_FAMILIES = ['gen', 'spd', 'cgen', 'bcrow']
 SOE_AXES_QUICK = {'given': SOE_GIVEN, 'order': ['asc'], 'shape': ['vec', 'blk'], 'kw': ['auto']}
 SOE_AXES_QUICK_DESC = {'given': SOE_GIVEN, 'order': ['desc', 'rot'], 'shape': ['vec'], 'kw': ['auto']}
-LS_AXES_FULL = {'shape': lm.RHS_SHAPES, 'lda': [True, False], 'flags': ['none', 'given'], 'rscale': [1.0, 1e-9]}
-LS_AXES_QUICK_PATTERNS = {'shape': lm.RHS_SHAPES, 'lda': [True], 'flags': ['none', 'given']}
+LS_AXES_FULL = {'shape': lm.RHS_SHAPES, 'lda': [True, False], 'flags': ['none', 'given', 'sym_only', 'herm_only'],
+                'rscale': [1.0, 1e-9]}
+LS_AXES_QUICK_PATTERNS = {'shape': lm.RHS_SHAPES, 'lda': [True], 'flags': ['none', 'given', 'sym_only']}
 SOE_AXES_QUICK_KW = {'given': ['free'], 'order': ['asc'], 'shape': ['col'], 'kw': ['splu', 'flags']}
 SOE_AXES_FULL = {'given': SOE_GIVEN, 'order': ORDERS, 'shape': lm.RHS_SHAPES, 'kw': SOE_KW}
 SOE_AXES_PATTERNS = {'given': SOE_GIVEN, 'order': ORDERS, 'shape': ['vec', 'blk'], 'kw': ['auto', 'flags']}
